@@ -423,6 +423,17 @@ fn hostile_variants() -> Vec<(String, Profile)> {
         p.net_channels = (0..*n).map(|i| 1004 + (i % 60000) as u16).collect();
         variants.push((format!("channelCount={}", n), p));
     }
+    // a channel id array that disagrees with its count: fewer complete ids than announced, half an id at the end
+    for count in [0u16, 1, 2, 3, 0xffff].iter() {
+        for nbytes in [0usize, 1, 2, 3, 5, 6].iter() {
+            if *nbytes == *count as usize * 2 {
+                continue;
+            }
+            let mut p = Profile::default();
+            p.net_raw = Some((*count, (0..*nbytes).map(|i| 0xec + i as u8).collect()));
+            variants.push((format!("scNet(channelCount,arrayBytes)={}/{}", count, nbytes), p));
+        }
+    }
     for n in [0usize, 1, 50, 200].iter() {
         let mut p = Profile::default();
         let one = p.caps[1].clone();
@@ -547,6 +558,23 @@ pub fn run(cfg: &Cfg) -> Report {
         total.count("flood_plans", n);
         total.merge(rep);
     }
+    // class 6: the negotiation as callers of x224::Client::connect may configure it - every offered mask (also masks that
+    // hold protocols the stock Connector never offers) against every selected value, flags and reply kind (the cases of
+    // C02's sweeps); only crashes are judged here
+    if cfg.wants(6) {
+        let n = cfg.n(16_384, 16_384 * 4);
+        let rep = par_run(cfg, n, 64, |idx, rep| {
+            mon::begin_case(5, 6, idx, seed);
+            rep.eval();
+            let c = crate::props::c02::make_case(1 + idx / 16_384 % 2 * 3, idx % 16_384, seed);
+            if let Err(p) = crate::props::c02::run_case(&c) {
+                rep.violation(format!("C05/x224-negotiation/{}", p.sig()), format!("{} at {}:{}", p.msg, p.file, p.line), json!({"x224_case": [1 + idx / 16_384 % 2 * 3, idx % 16_384, seed]}));
+            }
+            rep.nontrivial(idx ^ 0xC05_6);
+        });
+        total.count("x224_negotiation_cases", n);
+        total.merge(rep);
+    }
     // class 3: all short byte strings at each parser entry (length <= 3 quick; <= 4 at the three cheapest in thorough)
     if cfg.wants(3) {
         for (e, _) in ENTRIES.iter().enumerate() {
@@ -597,6 +625,13 @@ pub fn run(cfg: &Cfg) -> Report {
 pub fn replay(cfg: &Cfg, v: &Value) -> Report {
     let mut rep = Report::new();
     mon::set_quiet(false);
+    if let Some(a) = v.get("x224_case").and_then(|a| a.as_array()) {
+        let c = crate::props::c02::make_case(a[0].as_u64().unwrap_or(1), a[1].as_u64().unwrap_or(0), a[2].as_u64().unwrap_or(1));
+        if let Err(p) = crate::props::c02::run_case(&c) {
+            rep.violation(format!("C05/x224-negotiation/{}", p.sig()), format!("{} at {}:{}", p.msg, p.file, p.line), v.clone());
+        }
+        return rep;
+    }
     let profs = profiles();
     if let Some(a) = v.get("death_case") {
         let a: Vec<u64> = a.as_array().unwrap().iter().map(|x| x.as_u64().unwrap()).collect();
